@@ -1,6 +1,6 @@
 // ref/lzma_dec.h - independent LZMA and LZMA2 decoders (whole buffer, no resumable state, no
-// liblzma headers).  Structure follows the LZMA specification's reference decoder (range decoder
-// normalises *after* each bit; liblzma normalises before), written from DESIGN.md Appendix A.
+// liblzma headers).  Structure follows the LZMA specification's reference decoder (whole-buffer, symbol loop with
+// explicit end conditions), written from DESIGN.md Appendix A.  The range decoder reads a byte only when needed.
 //
 // Relaxations of this implementation that are mirrored on purpose (documented in DESIGN.md 3.3):
 //  * the dictionary size used for distance checks is max(dict,4096) rounded up to a multiple of 16;
@@ -24,18 +24,22 @@ struct RangeDec {
 	uint8_t rd() { if (pos < n) return p[pos++]; eof = true; return 0; }
 	void init() { if (rd() != 0 && !eof) bad = true; for (int i = 0; i < 4; ++i) code = (code << 8) | rd(); }
 	void norm() { if (range < (1u << 24)) { range <<= 8; code = (code << 8) | rd(); } }
+	// Normalisation happens *before* a bit is decoded (a byte is read only when it is needed), so that running out of
+	// input is noticed exactly at the first symbol that cannot be completed.
 	unsigned bit(uint16_t &prob) {
+		norm();
 		uint32_t bound = (range >> 11) * prob; unsigned s;
 		if (code < bound) { prob = (uint16_t)(prob + ((2048 - prob) >> 5)); range = bound; s = 0; }
 		else { prob = (uint16_t)(prob - (prob >> 5)); code -= bound; range -= bound; s = 1; }
-		norm(); return s;
+		return s;
 	}
 	uint32_t direct(unsigned nbits) {
 		uint32_t r = 0;
-		while (nbits--) { range >>= 1; code -= range; uint32_t t = 0u - (code >> 31); code += range & t; norm(); r = (r << 1) + t + 1; }
+		while (nbits--) { norm(); range >>= 1; code -= range; uint32_t t = 0u - (code >> 31); code += range & t; r = (r << 1) + t + 1; }
 		return r;
 	}
-	bool finished_ok() const { return code == 0; }
+	// end of stream: one more normalisation, then the code value must be zero
+	bool finish_check() { norm(); return !eof && code == 0; }
 };
 
 struct BitTree {
@@ -82,7 +86,7 @@ struct LzmaRun {
 	uint32_t dict_eff = 4096;              // effective dictionary size (effective_dict())
 	size_t out_limit = (size_t)1 << 31;
 	// out
-	size_t in_used = 0; uint64_t max_dist_plus1 = 0; bool saw_marker = false;
+	size_t in_used = 0; uint64_t max_dist_plus1 = 0; bool saw_marker = false; bool norm_done = false;
 };
 
 // Decode one LZMA stream (or LZMA2 chunk) into `out`, whose bytes from index `hist_start` on are the history
@@ -93,7 +97,9 @@ static inline int lzma_decode_core(LzmaState &s, RangeDec &rc, std::vector<uint8
 	for (;;) {
 		if (rc.eof) return RS_TRUNCATED;
 		if (known && left == 0) {
-			if (rc.finished_ok()) return RS_OK;       // finished without marker
+			// one more normalisation belongs to the stream, then code == 0 means "finished without marker"
+			if (!r.norm_done) { rc.norm(); r.norm_done = true; if (rc.eof) return RS_TRUNCATED; }
+			if (rc.code == 0) return RS_OK;
 			if (!r.allow_marker) return RS_DATA_ERROR;
 			// otherwise the next symbol must be the marker
 		}
@@ -160,7 +166,7 @@ static inline int lzma_decode_core(LzmaState &s, RangeDec &rc, std::vector<uint8
 				// end marker
 				r.saw_marker = true;
 				if (known && (left != 0 || !r.allow_marker)) return RS_DATA_ERROR;
-				return rc.finished_ok() ? RS_OK : RS_DATA_ERROR;
+				{ bool fin = rc.finish_check(); if (rc.eof) return RS_TRUNCATED; return fin ? RS_OK : RS_DATA_ERROR; }
 			}
 			if (known && left == 0) return RS_DATA_ERROR;
 		}
